@@ -49,6 +49,9 @@ CHECKS = {
  "C18": ("engine-b", "model_checking", B,
          "EBLIF texts rendered by an independent writer (vlib/eblif_writer.py) from flat abstract designs (.subckt/.gate/.names/.latch/.conn, bus-indexed nets, unconn actuals, .cname/.attr/.param, a model instanced with a growing port set, constants, chained .conn) in every statement order x line-continuation positions x comments x black-box models declared before/after/never; instances, data, port directions and nets-as-pin-sets must equal the model, black boxes are leaf primitives, the netlist is well-formed; compose + parse reproduces instances, types, data and nets; bundled .eblif files pass the same well-formedness and round-trip clauses",
          "bounded: 3 base designs of <= 5 statements; every instance carries a .cname; single-pin nets are not distinguished from unconnected pins; cover strings compared modulo surrounding blanks"),
+ "C16": ("engine-b", "model_checking", B,
+         "every netlist of the input space (API-built and reader-built from all three formats, bundled files) is composed to every target format under every option set (definition_list, write_blackbox, defparam, write_eblif_cname); identity-level snapshot of the whole netlist before == after with only the documented EDIF side effects masked; file stable at return; second compose and compose after all query functions byte-identical modulo the timestamp; file properly terminated",
+         "bounded: see coverage.bounds_completed; a format counts as composable for an input when its composer returns normally"),
 }
 m = {
  "version": 1,
